@@ -33,6 +33,9 @@ SCN = {
     "N-list-tr": ("N", 0, "anc", 0),       # Node.anc : List[Node], transitive with inverse desc (inference writes back into the field)
 }
 NELEM = 4
+# scenarios whose elements 2 and 3 are distinct objects that compare and hash equal (class Twin, ==-class 2)
+TWINS = {"N-list": [(2, 2), (3, 2)]}
+TWIN_CLASS = 2       # index of c15.Twin in family N
 CASE_TIMEOUT_S = 2.0   # CPU-time guard per case (ITIMER_VIRTUAL: immune to machine load; a non-terminating write is CPU-bound)
 LIST_OPS = ["Assign", "AssignSelf", "IAug", "Append", "Extend", "ExtendGen", "ExtendSelf", "Insert", "SetItem", "SetSlice", "SetSliceGen"]
 SET_OPS = ["Assign", "AssignList", "AssignSelf", "IAug", "Add", "Update", "Update2"]
@@ -66,7 +69,28 @@ def aug(name: str, op: str):
 def population(scn: str):
     famk, oc, name, ec = SCN[scn]
     # elements 0..NELEM-1, owner NELEM
-    return [[ec, None]] * NELEM + [[oc, None]]
+    tw = {i for i, _ in TWINS.get(scn, [])}
+    return [[TWIN_CLASS if i in tw else ec, None] for i in range(NELEM)] + [[oc, None]]
+
+
+def make_elements(scn: str, fam):
+    ec = SCN[scn][3]
+    tw = dict(TWINS.get(scn, []))
+    return [c15.Twin(f"o{i}", key=tw[i]) if i in tw else fam.classes[ec](f"o{i}") for i in range(NELEM)]
+
+
+def in_slice_twins_class(d) -> bool:
+    """K_slice_twins: a slice assignment whose value holds two distinct objects of one ==-class"""
+    tw = dict(TWINS.get(d["scn"], []))
+    for op in d.get("ops", []):
+        if op[0] in ("SetSlice", "SetSliceGen"):
+            seen = {}
+            for x in op[3]:
+                c = tw.get(x, ("id", x))
+                if c in seen and seen[c] != x:
+                    return True
+                seen.setdefault(c, x)
+    return False
 
 
 def run_impl(descr) -> Dict[str, Any]:
@@ -77,7 +101,7 @@ def run_impl(descr) -> Dict[str, Any]:
     f = field_id(scn)
     SymbolGraph().clear()
     SymbolGraph()
-    elems = [fam.classes[ec](f"o{i}") for i in range(NELEM)]
+    elems = make_elements(scn, fam)
     init = [elems[i] for i in descr["init"]]
     C = fam.classes[oc]
     if not init and descr.get("default_ctor"):
@@ -350,13 +374,14 @@ def run(tier: str, seed: int, replay=None) -> int:
     ]
     rep.assume = [
         "the field is written by its owner with fresh arguments (lists, sets, generators) or with itself for assignment / += / |=; "
-        "K_ctor_alias (another object's managed container given to a constructor) is outside the fragment (known finding C16-d with a _refuted theorem)",
+        "K_ctor_alias (another object's managed container given to a constructor, C16-d) is outside the fragment (known finding with a _refuted theorem)",
+        "elements of SET-valued fields are pairwise different under == (Python's own set semantics go by ==, the symbol graph by identity); twins are generated for list fields only",
         "item assignment with an integer index or a step-1 slice whose value is a list or a generator",
         "remove / pop / clear / del are not in the property's list of writes (the graph never retracts)",
     ]
     rep.rule = ("random histories of 1-7 operations (assignment of a fresh list/set, self-assignment, += / |=, append, extend with a list, a generator or the field itself, "
                 "insert, item assignment and slice assignment (list or generator value) with indices in -4..5, add, update with 1 or 0-3 iterables) from random initial contents given to the constructor, "
-                "on Person.member_of, Company.members, Node.a, Node.b; elements drawn with repetition from 4 objects; "
+                "on Person.member_of, Company.members, Node.a, Node.b; elements drawn with repetition from 4 objects (in the Node.a scenario objects 2 and 3 are distinct Twin objects that compare and hash equal; recording is checked per object identity); "
                 "non-trivial = at least one operation changes the contents; distinct = distinct (scenario, initial contents, history)")
     ok_spec, log = core.coq_make(["Base/Sx.vo", "Onto/ContainerSpec.vo", "Onto/ClosureSpec.vo"])
     rep.oblige("build:spec", ok_spec, "" if ok_spec else core.first_error(log))
@@ -398,6 +423,7 @@ def run(tier: str, seed: int, replay=None) -> int:
     fixed_names = {f.witness.split("/")[-1]: f for f in findings if f.kind == "fixed"}
     dist = {"scenario": {}, "op": {}, "len": {}, "indexerror": 0}
     nviol, mism = 0, 0
+    kf_instances: Dict[str, int] = {}
     for i, (d, im, sp, mo) in enumerate(zip(descrs, impls, specs, models)):
         cname = corpus[i][0] if i < len(corpus) else None
         scn = d["scn"]
@@ -444,6 +470,10 @@ def run(tier: str, seed: int, replay=None) -> int:
         if cname in open_names and model_agrees:
             rep.known(open_names[cname])
             continue
+        if (model_agrees and d.get("kind") != "ctor_alias" and in_slice_twins_class(d)
+                and any(f.cls == "K_slice_twins" for f in findings if f.kind == "open")):
+            kf_instances["K_slice_twins"] = kf_instances.get("K_slice_twins", 0) + 1   # an instance of C16-g, as the model predicts
+            continue
         v = {"kind": "counterexample", "case": d, "impl": im, "spec": sp, "model": mo, "problems": problems, "python": snippet(d),
              "explanation": "elements are numbered 0..3, the owner is object 4; trace = [contents after the operation, 1 if IndexError]; "
                             "spec trace starts with the contents given to the constructor"}
@@ -455,6 +485,7 @@ def run(tier: str, seed: int, replay=None) -> int:
     rep.samples = [{"case": d, "impl": im} for d, im in list(zip(descrs, impls))[:: max(1, len(descrs) // 6)]][:6]
     rep.extra["distribution"] = dist
     rep.extra["model_mismatches"] = mism
+    rep.extra["known_finding_instances"] = kf_instances
     return rep.finish()
 
 
